@@ -15,6 +15,7 @@
 import Atomman.C12
 import Proofs.C12_Lemmas
 import Proofs.C12_Cov
+import Proofs.C12_Analysis
 import Mathlib.Tactic.Ring
 import Mathlib.Tactic.LinearCombination
 import Mathlib.Tactic.FieldSimp
@@ -486,6 +487,277 @@ theorem iso_K_posdef (s : IsoSetup K) (hmu : 0 < s.mu) (hnu : s.nu < 1)
     mul_nonneg (sub_nonneg.2 h2) (mul_self_nonneg c)]
 end isoK
 
+/-! ### the analytic statements (Mathlib's complex logarithm, arctan, log): derivatives, limits at the cut -/
+section analysis
+open Complex
+
+/-- **strain = symmetric gradient of the displacement, as a derivative**: off the cuts of the six logarithms
+    (`ηₐ(x) ∈ slitPlane`) the coded displacement is differentiable along every coordinate axis, with partial
+    derivatives `G i j = ∂ⱼ uᵢ`, and the coded strain is `(G i j + G j i)/2`. -/
+theorem strain_is_symgrad_deriv (pi I : ℂ) (s : Setup ℂ) (μ : Fin 6 → Mode ℂ) (k : Fin 6 → ℂ) (x : Vec ℂ)
+    (hx : ∀ a, eta s (μ a) x ∈ slitPlane) :
+    ∃ G : Mat ℂ,
+      (∀ i j, HasDerivAt (fun t : ℂ => dispField pi I s μ k (fun c => x c + t * basisVec j c) i) (G i j) 0)
+      ∧ ∀ i j, strainAt pi I s μ k x i j = (G i j + G j i) / 2 := by
+  refine ⟨fun i j => sum6 fun a => dispCoef pi I s μ k a i * (mpn s (μ a) j / eta s (μ a) x), ?_, ?_⟩
+  · intro i j
+    have hl : ∀ a, HasDerivAt (fun t : ℂ => Complex.log (eta s (μ a) (fun c => x c + t * basisVec j c)))
+        (mpn s (μ a) j / eta s (μ a) x) 0 := by
+      intro a
+      have h0 := hasDerivAt_eta s (μ a) x (basisVec j) 0
+      have hmem : eta s (μ a) (fun c => x c + (0 : ℂ) * basisVec j c) ∈ slitPlane := by
+        simpa using hx a
+      have := h0.clog hmem
+      simpa [dot_basisVec] using this
+    have h6 := hasDerivAt_sum6 (fun a => dispCoef pi I s μ k a i)
+      (fun a t => Complex.log (eta s (μ a) (fun c => x c + t * basisVec j c))) _ 0 hl
+    unfold dispField dispAt
+    exact h6
+  · intro i j
+    simp only [strainAt, strain_is_symgrad, sum6]
+    ring
+
+/-- **div σ = 0 as a derivative**: away from the line (`ηₐ(x) ≠ 0`) the coded stress is differentiable along every
+    coordinate axis, `D i j = ∂ⱼ σᵢⱼ`, and `Σⱼ D i j = 0` when every mode solves the sextic equation. -/
+theorem stress_div_free_deriv (pi I : ℂ) (s : Setup ℂ) (μ : Fin 6 → Mode ℂ) (k : Fin 6 → ℂ) (x : Vec ℂ)
+    (hC : ∀ i j k l, s.C i j k l = s.C j i k l) (hx : ∀ a, eta s (μ a) x ≠ 0)
+    (hsext : ∀ a i, matVec (sextic s (μ a).p) (μ a).A i = 0) :
+    ∃ D : Mat ℂ,
+      (∀ i j, HasDerivAt (fun t : ℂ => stressAt pi I s μ k (fun c => x c + t * basisVec j c) i j) (D i j) 0)
+      ∧ ∀ i, (sum3 fun j => D i j) = 0 := by
+  refine ⟨fun i j => sum6 fun a => stressCoef pi I s μ k a i j * (-(mpn s (μ a) j) / eta s (μ a) x ^ 2), ?_, ?_⟩
+  · intro i j
+    have hl : ∀ a, HasDerivAt (fun t : ℂ => ((1 : ℕ) : ℂ) / eta s (μ a) (fun c => x c + t * basisVec j c))
+        (-(mpn s (μ a) j) / eta s (μ a) x ^ 2) 0 := by
+      intro a
+      have h0 := hasDerivAt_eta s (μ a) x (basisVec j) 0
+      have hne : eta s (μ a) (fun c => x c + (0 : ℂ) * basisVec j c) ≠ 0 := by simpa using hx a
+      have := h0.fun_inv hne
+      simpa [dot_basisVec, one_div] using this
+    have h6 := hasDerivAt_sum6 (fun a => stressCoef pi I s μ k a i j)
+      (fun a t => ((1 : ℕ) : ℂ) / eta s (μ a) (fun c => x c + t * basisVec j c)) _ 0 hl
+    unfold stressAt
+    exact h6
+  · intro i
+    have d := fun a => stress_div_free pi I s μ k hC a (hsext a) i
+    have d0 := d 0; have d1 := d 1; have d2 := d 2; have d3 := d 3; have d4 := d 4; have d5 := d 5
+    simp only [sum3, sum6] at *
+    have h0 := hx 0; have h1 := hx 1; have h2 := hx 2; have h3 := hx 3; have h4 := hx 4; have h5 := hx 5
+    linear_combination (-1 / eta s (μ 0) x ^ 2) * d0 + (-1 / eta s (μ 1) x ^ 2) * d1 + (-1 / eta s (μ 2) x ^ 2) * d2
+      + (-1 / eta s (μ 3) x ^ 2) * d3 + (-1 / eta s (μ 4) x ^ 2) * d4 + (-1 / eta s (μ 5) x ^ 2) * d5
+
+/-- **continuous elsewhere**: the coded displacement is continuous at every point where no `ηₐ` lies on the cut of
+    the logarithm. -/
+theorem disp_continuous_off_cut_analytic (pi I : ℂ) (s : Setup ℂ) (μ : Fin 6 → Mode ℂ) (k : Fin 6 → ℂ) (x : Vec ℂ)
+    (hx : ∀ a, eta s (μ a) x ∈ slitPlane) (i : Fin 3) :
+    ContinuousAt (fun x' : Vec ℂ => dispField pi I s μ k x' i) x := by
+  have he : ∀ a, ContinuousAt (fun x' : Vec ℂ => eta s (μ a) x') x := by
+    intro a
+    simp only [eta, dot, sum3]
+    fun_prop
+  have hl : ∀ a, ContinuousAt (fun x' : Vec ℂ => Complex.log (eta s (μ a) x')) x := fun a => (he a).clog (hx a)
+  unfold dispField dispAt
+  simp only [sum6]
+  fun_prop
+
+open Filter Topology in
+/-- **the displacement jumps by exactly the Burgers vector across the cut half-plane**: along the path
+    `X(y) = x₀ m + y n` (`x₀ < 0`, orthonormal `m, n`) the coded displacement — with `np.log` the principal complex
+    logarithm and `π`, `i` the real things — has one-sided limits at `y = 0`, and `lim_{y→0⁺} − lim_{y→0⁻} = b`,
+    provided the modes are ordered as the `updn` pattern presupposes (`Im pₐ > 0` for even, `< 0` for odd `a`) and
+    the completeness relation `Σ kₐAₐ⊗Lₐ = 1` holds. -/
+theorem burgers_jump_limit (s : Setup ℂ) (μ : Fin 6 → Mode ℂ) (k : Fin 6 → ℂ) (x0 : ℝ) (hx0 : x0 < 0)
+    (hm : dot s.m s.m = 1) (hn : dot s.n s.n = 1) (hmn : dot s.m s.n = 0)
+    (hIm : ∀ a : Fin 6, (a.val % 2 = 0 → 0 < ((μ a).p).im) ∧ (a.val % 2 = 1 → ((μ a).p).im < 0))
+    (hcomp : ∀ i j, chkAL μ k i j = kron i j) :
+    ∃ Up Dn : Vec ℂ,
+      (∀ i, Tendsto (fun y : ℝ => dispField Real.pi I s μ k (fun c => x0 * s.m c + y * s.n c) i) (𝓝[>] 0) (𝓝 (Up i)))
+      ∧ (∀ i, Tendsto (fun y : ℝ => dispField Real.pi I s μ k (fun c => x0 * s.m c + y * s.n c) i) (𝓝[<] 0) (𝓝 (Dn i)))
+      ∧ ∀ i, Up i - Dn i = s.b i := by
+  have hpath : ∀ (a : Fin 6) (y : ℝ), eta s (μ a) (fun c => x0 * s.m c + y * s.n c) = x0 + (μ a).p * y := by
+    intro a y
+    simp only [dot, sum3] at hm hn hmn
+    simp only [eta, dot, sum3]
+    linear_combination (x0 : ℂ) * hm + ((μ a).p * y) * hn + ((y : ℂ) + (μ a).p * x0) * hmn
+  set L : ℂ := ((Real.log ‖(x0 : ℂ)‖ : ℝ) : ℂ) with hL
+  let lnUp : Fin 6 → ℂ := fun a => L + updn a * (Real.pi * I)
+  let lnDn : Fin 6 → ℂ := fun a => L - updn a * (Real.pi * I)
+  have hup : ∀ a, Tendsto (fun y : ℝ => Complex.log (eta s (μ a) (fun c => x0 * s.m c + y * s.n c))) (𝓝[>] 0) (𝓝 (lnUp a)) := by
+    intro a
+    simp only [hpath]
+    have t := tendsto_log_line x0 hx0 (μ a).p
+    have hi := hIm a
+    fin_cases a <;> simp [lnUp, updn] at hi ⊢
+    · simpa [hL] using (t.1 hi).1
+    · simpa [hL, sub_eq_add_neg] using (t.2 hi).1
+    · simpa [hL] using (t.1 hi).1
+    · simpa [hL, sub_eq_add_neg] using (t.2 hi).1
+    · simpa [hL] using (t.1 hi).1
+    · simpa [hL, sub_eq_add_neg] using (t.2 hi).1
+  have hdn : ∀ a, Tendsto (fun y : ℝ => Complex.log (eta s (μ a) (fun c => x0 * s.m c + y * s.n c))) (𝓝[<] 0) (𝓝 (lnDn a)) := by
+    intro a
+    simp only [hpath]
+    have t := tendsto_log_line x0 hx0 (μ a).p
+    have hi := hIm a
+    fin_cases a <;> simp [lnDn, updn] at hi ⊢
+    · simpa [hL] using (t.1 hi).2
+    · simpa [hL] using (t.2 hi).2
+    · simpa [hL] using (t.1 hi).2
+    · simpa [hL] using (t.2 hi).2
+    · simpa [hL] using (t.1 hi).2
+    · simpa [hL] using (t.2 hi).2
+  refine ⟨dispAt Real.pi I s μ k lnUp, dispAt Real.pi I s μ k lnDn, fun i => ?_, fun i => ?_, fun i => ?_⟩
+  · have := tendsto_sum6 (fun a => dispCoef Real.pi I s μ k a i) _ lnUp hup
+    unfold dispField dispAt
+    exact this
+  · have := tendsto_sum6 (fun a => dispCoef Real.pi I s μ k a i) _ lnDn hdn
+    unfold dispField dispAt
+    exact this
+  · have hpi : (Real.pi : ℂ) ≠ 0 := by exact_mod_cast Real.pi_ne_zero
+    have hj := burgers_closure (Real.pi : ℂ) I s μ k hpi I_ne_zero hcomp i
+    rw [← hj]
+    simp only [dispJump, dispAt, sum6, lnUp, lnDn, Nat.cast_ofNat]
+    ring
+end analysis
+
+section theta
+variable {K : Type} [Field K] [LinearOrder K] [IsStrictOrderedRing K]
+
+/-- the branch chosen by `theta()`: on `x > 0` it is `arctan(y/x)`, on `x < 0` it is `arctan(y/x) + π` above and
+    `arctan(y/x) − π` on and below the negative x axis, on `x = 0` it is `±π/2` (`atn` stands for `arctan(y/x)`). -/
+theorem thetaOf_halfplanes (pi x y atn : K) (hpi : 0 < pi) :
+    (0 < x → atn < pi → thetaOf pi x y atn = atn)
+    ∧ (x < 0 → atn < 0 → thetaOf pi x y atn = atn + pi)
+    ∧ (x < 0 → 0 ≤ atn → thetaOf pi x y atn = atn - pi)
+    ∧ (x = 0 → 0 < y → thetaOf pi x y atn = pi / 2)
+    ∧ (x = 0 → y < 0 → thetaOf pi x y atn = -pi / 2) := by
+  refine ⟨fun hx ha => ?_, fun hx ha => ?_, fun hx ha => ?_, fun hx hy => ?_, fun hx hy => ?_⟩
+  · simp [thetaOf, hx.ne', not_lt.2 hx.le, ha]
+  · simp [thetaOf, hx.ne, hx, show atn + pi < pi by linarith]
+  · simp [thetaOf, hx.ne, hx, show ¬ (atn + pi < pi) by linarith]; ring
+  · subst hx; simp [thetaOf, hy, show pi / 2 < pi by linarith]
+  · subst hx; simp [thetaOf, hy, not_lt.2 hy.le, show -pi / 2 < pi by linarith]
+end theta
+
+section isoDeriv
+variable (x y nu mu b_e b_s pi c : ℝ)
+
+/-- **isotropic strain = symmetric gradient of the isotropic displacement**, as derivatives over ℝ on the open
+    half-planes `x ≠ 0`, where `theta()` is `arctan(y/x)` plus a constant `c` (see `thetaOf_halfplanes`), with
+    `np.log = Real.log`: the six partial derivatives of the generated displacement components exist and the
+    generated local strain is their symmetrisation (`∂/∂ξ = 0`). -/
+theorem iso_strain_is_symgrad_deriv (hx : x ≠ 0) (hpi : pi ≠ 0) (h1 : 1 - nu ≠ 0) (h2 : 1 + nu ≠ 0) :
+    ∃ gmx gmy gnx gny gzx gzy : ℝ,
+      HasDerivAt (fun x' => isoDisp_m Real.log x' y nu b_e b_s pi (Real.arctan (y / x') + c)) gmx x
+      ∧ HasDerivAt (fun y' => isoDisp_m Real.log x y' nu b_e b_s pi (Real.arctan (y' / x) + c)) gmy y
+      ∧ HasDerivAt (fun x' => isoDisp_n Real.log x' y nu b_e b_s pi (Real.arctan (y / x') + c)) gnx x
+      ∧ HasDerivAt (fun y' => isoDisp_n Real.log x y' nu b_e b_s pi (Real.arctan (y' / x) + c)) gny y
+      ∧ HasDerivAt (fun x' => isoDisp_ξ Real.log x' y nu b_e b_s pi (Real.arctan (y / x') + c)) gzx x
+      ∧ HasDerivAt (fun y' => isoDisp_ξ Real.log x y' nu b_e b_s pi (Real.arctan (y' / x) + c)) gzy y
+      ∧ isoStrain x y nu b_e b_s pi 0 0 = gmx ∧ isoStrain x y nu b_e b_s pi 1 1 = gny
+      ∧ isoStrain x y nu b_e b_s pi 0 1 = (gmy + gnx) / 2 ∧ isoStrain x y nu b_e b_s pi 0 2 = gzx / 2
+      ∧ isoStrain x y nu b_e b_s pi 1 2 = gzy / 2 ∧ isoStrain x y nu b_e b_s pi 2 2 = 0 := by
+  have hr := r2_ne_zero x y hx
+  have hden : 2 * (1 - nu) * (x * x + y * y) ≠ 0 := mul_ne_zero (mul_ne_zero two_ne_zero h1) hr
+  have h4 : 1 - nu * nu ≠ 0 := by
+    have : 1 - nu * nu = (1 - nu) * (1 + nu) := by ring
+    rw [this]; exact mul_ne_zero h1 h2
+  have h4' : 1 - nu ^ 2 ≠ 0 := by simpa [pow_two] using h4
+  -- u_m
+  have hBx : HasDerivAt (fun x' => x' * y / (2 * (1 - nu) * (x' * x' + y * y))) _ x :=
+    ((hasDerivAt_id' x).mul_const y).fun_div ((hasDerivAt_r2_x x y).const_mul (2 * (1 - nu))) hden
+  have hBy : HasDerivAt (fun y' => x * y' / (2 * (1 - nu) * (x * x + y' * y'))) _ y :=
+    ((hasDerivAt_id' y).const_mul x).fun_div ((hasDerivAt_r2_y x y).const_mul (2 * (1 - nu))) hden
+  have hmx := ((hasDerivAt_theta_x x y c hx).fun_add hBx).const_mul (b_e / (2 * pi))
+  have hmy := ((hasDerivAt_theta_y x y c hx).fun_add hBy).const_mul (b_e / (2 * pi))
+  -- u_n
+  have hLx := (hasDerivAt_r2_x x y).log hr
+  have hLy := (hasDerivAt_r2_y x y).log hr
+  have hDx : HasDerivAt (fun x' : ℝ => y * y / (2 * (1 - nu) * (x' * x' + y * y))) _ x :=
+    (hasDerivAt_const x (y * y)).fun_div ((hasDerivAt_r2_x x y).const_mul (2 * (1 - nu))) hden
+  have hDy : HasDerivAt (fun y' : ℝ => y' * y' / (2 * (1 - nu) * (x * x + y' * y'))) _ y :=
+    ((hasDerivAt_id' y).fun_mul (hasDerivAt_id' y)).fun_div ((hasDerivAt_r2_y x y).const_mul (2 * (1 - nu))) hden
+  have hnx := ((hLx.const_mul (-(1 - 2 * nu) / (4 * (1 - nu)))).fun_add hDx).const_mul (b_e / (2 * pi))
+  have hny := ((hLy.const_mul (-(1 - 2 * nu) / (4 * (1 - nu)))).fun_add hDy).const_mul (b_e / (2 * pi))
+  -- u_ξ
+  have hzx := (hasDerivAt_theta_x x y c hx).const_mul (b_s / (2 * pi))
+  have hzy := (hasDerivAt_theta_y x y c hx).const_mul (b_s / (2 * pi))
+  have em : ∀ x' y' t, isoDisp_m Real.log x' y' nu b_e b_s pi t
+      = b_e / (2 * pi) * (t + x' * y' / (2 * (1 - nu) * (x' * x' + y' * y'))) := by
+    intro x' y' t; simp only [isoDisp_m, Nat.cast_ofNat, Nat.cast_one]
+  have en : ∀ x' y' t, isoDisp_n Real.log x' y' nu b_e b_s pi t
+      = b_e / (2 * pi) * (-(1 - 2 * nu) / (4 * (1 - nu)) * Real.log (x' * x' + y' * y')
+          + y' * y' / (2 * (1 - nu) * (x' * x' + y' * y'))) := by
+    intro x' y' t; simp only [isoDisp_n, Nat.cast_ofNat, Nat.cast_one]
+  have ez : ∀ x' y' t, isoDisp_ξ Real.log x' y' nu b_e b_s pi t = b_s / (2 * pi) * t := by
+    intro x' y' t; simp only [isoDisp_ξ, Nat.cast_ofNat]
+  simp only [em, en, ez]
+  refine ⟨_, _, _, _, _, _, hmx, hmy, hnx, hny, hzx, hzy, ?_, ?_, ?_, ?_, ?_, ?_⟩
+  · simp [isoStrain, isoStrain_0_0]; field_simp; ring
+  · simp [isoStrain, isoStrain_1_1]; field_simp; ring
+  · simp [isoStrain, isoStrain_0_1]; field_simp; ring
+  · simp [isoStrain, isoStrain_0_2]; field_simp; ring
+  · simp [isoStrain, isoStrain_1_2]; field_simp; ring
+  · simp [isoStrain, isoStrain_2_2]
+
+/-- **isotropic stress is divergence-free**, as derivatives over ℝ away from the line (`x² + y² ≠ 0`):
+    `∂ₓσ₀₀ + ∂ᵧσ₀₁ = 0`, `∂ₓσ₁₀ + ∂ᵧσ₁₁ = 0`, `∂ₓσ₂₀ + ∂ᵧσ₂₁ = 0` for the generated local stress
+    (`∂/∂ξ = 0`). -/
+theorem iso_stress_div_free_deriv (hr : x * x + y * y ≠ 0) :
+    ∃ d00 d01 d10 d11 d20 d21 : ℝ,
+      HasDerivAt (fun x' => isoStress x' y nu mu b_e b_s pi 0 0) d00 x
+      ∧ HasDerivAt (fun y' => isoStress x y' nu mu b_e b_s pi 0 1) d01 y
+      ∧ HasDerivAt (fun x' => isoStress x' y nu mu b_e b_s pi 1 0) d10 x
+      ∧ HasDerivAt (fun y' => isoStress x y' nu mu b_e b_s pi 1 1) d11 y
+      ∧ HasDerivAt (fun x' => isoStress x' y nu mu b_e b_s pi 2 0) d20 x
+      ∧ HasDerivAt (fun y' => isoStress x y' nu mu b_e b_s pi 2 1) d21 y
+      ∧ d00 + d01 = 0 ∧ d10 + d11 = 0 ∧ d20 + d21 = 0 := by
+  set pe : ℝ := mu * b_e / (2 * pi * (1 - nu)) with hpe
+  set ps : ℝ := mu * b_s / (2 * pi) with hps
+  have e00 : ∀ x' y', isoStress x' y' nu mu b_e b_s pi 0 0
+      = -pe * (y' * (3 * (x' * x') + y' * y')) / ((x' * x' + y' * y') * (x' * x' + y' * y')) := by
+    intro x' y'; simp [isoStress, isoStress_0_0, hpe]
+  have e01 : ∀ x' y', isoStress x' y' nu mu b_e b_s pi 0 1
+      = pe * (x' * (x' * x' - y' * y')) / ((x' * x' + y' * y') * (x' * x' + y' * y')) := by
+    intro x' y'; simp [isoStress, isoStress_0_1, hpe]
+  have e10 : ∀ x' y', isoStress x' y' nu mu b_e b_s pi 1 0
+      = pe * (x' * (x' * x' - y' * y')) / ((x' * x' + y' * y') * (x' * x' + y' * y')) := by
+    intro x' y'; simp [isoStress, isoStress_1_0, hpe]
+  have e11 : ∀ x' y', isoStress x' y' nu mu b_e b_s pi 1 1
+      = pe * (y' * (x' * x' - y' * y')) / ((x' * x' + y' * y') * (x' * x' + y' * y')) := by
+    intro x' y'; simp [isoStress, isoStress_1_1, hpe]
+  have e20 : ∀ x' y', isoStress x' y' nu mu b_e b_s pi 2 0 = -ps * y' / (x' * x' + y' * y') := by
+    intro x' y'; simp [isoStress, isoStress_2_0, hps]
+  have e21 : ∀ x' y', isoStress x' y' nu mu b_e b_s pi 2 1 = ps * x' / (x' * x' + y' * y') := by
+    intro x' y'; simp [isoStress, isoStress_2_1, hps]
+  simp only [e00, e01, e10, e11, e20, e21]
+  -- numerators
+  have n00 : HasDerivAt (fun x' : ℝ => -pe * (y * (3 * (x' * x') + y * y))) (-pe * (y * (3 * (1 * x + x * 1)))) x :=
+    (((((hasDerivAt_id' x).fun_mul (hasDerivAt_id' x)).const_mul 3).add_const (y * y)).const_mul y).const_mul (-pe)
+  have n01 : HasDerivAt (fun y' : ℝ => pe * (x * (x * x - y' * y'))) (pe * (x * (-(1 * y + y * 1)))) y :=
+    (((((hasDerivAt_id' y).fun_mul (hasDerivAt_id' y)).fun_neg).const_add (x * x)).const_mul x).const_mul pe
+      |>.congr_of_eventuallyEq (Filter.Eventually.of_forall fun y' => by ring)
+  have n10 : HasDerivAt (fun x' : ℝ => pe * (x' * (x' * x' - y * y)))
+      (pe * (1 * (x * x - y * y) + x * (1 * x + x * 1))) x :=
+    ((hasDerivAt_id' x).fun_mul ((((hasDerivAt_id' x).fun_mul (hasDerivAt_id' x))).sub_const (y * y))).const_mul pe
+  have n11 : HasDerivAt (fun y' : ℝ => pe * (y' * (x * x - y' * y')))
+      (pe * (1 * (x * x - y * y) + y * (-(1 * y + y * 1)))) y :=
+    ((hasDerivAt_id' y).fun_mul ((((hasDerivAt_id' y).fun_mul (hasDerivAt_id' y)).fun_neg).const_add (x * x))).const_mul pe
+      |>.congr_of_eventuallyEq (Filter.Eventually.of_forall fun y' => by ring)
+  have h00 := hasDerivAt_over_r4_x x y _ _ n00 hr
+  have h01 := hasDerivAt_over_r4_y x y _ _ n01 hr
+  have h10 := hasDerivAt_over_r4_x x y _ _ n10 hr
+  have h11 := hasDerivAt_over_r4_y x y _ _ n11 hr
+  have h20 : HasDerivAt (fun x' : ℝ => -ps * y / (x' * x' + y * y)) _ x :=
+    (hasDerivAt_const x (-ps * y)).fun_div (hasDerivAt_r2_x x y) hr
+  have h21 : HasDerivAt (fun y' : ℝ => ps * x / (x * x + y' * y')) _ y :=
+    (hasDerivAt_const y (ps * x)).fun_div (hasDerivAt_r2_y x y) hr
+  refine ⟨_, _, _, _, _, _, h00, h01, h10, h11, h20, h21, ?_, ?_, ?_⟩
+  · field_simp; ring
+  · field_simp; ring
+  · field_simp; ring
+end isoDeriv
+
 /-! ### non-vacuity: a concrete medium, frame and mode over `Cx ℚ` meeting the hypotheses -/
 
 /-- isotropic test medium `C11 = 3, C12 = 1, C44 = 1`, frame `m = x, n = y`, screw Burgers vector. -/
@@ -522,5 +794,23 @@ example : dot exIso.m exIso.m = 1 ∧ dot exIso.n exIso.n = 1 ∧ dot exIso.m ex
     ∧ 0 < exIso.mu ∧ exIso.nu < 1 := by
   decide +kernel
 example : (2 : ℚ) ≠ 0 ∧ (1 : ℚ) * 1 + 2 * 2 ≠ 0 := by norm_num
+
+/-- six modes meeting the hypotheses of `burgers_jump_limit` (`pₐ = ±i`, `Aₐ = Lₐ = e_{⌊a/2⌋}`, `kₐ = ½`),
+    with `m = x`, `n = y` of `exSetupC`. -/
+noncomputable def exModesC : Fin 6 → Mode ℂ := fun a =>
+  ⟨if a.val % 2 = 0 then Complex.I else -Complex.I, fun i => if i.val = a.val / 2 then 1 else 0,
+    fun i => if i.val = a.val / 2 then 1 else 0⟩
+example : ∀ i j, chkAL exModesC (fun _ => (1 / 2 : ℂ)) i j = kron i j := by
+  intro i j; fin_cases i <;> fin_cases j <;> simp [chkAL, sum6, exModesC, kron] <;> norm_num
+example : ∀ a : Fin 6, (a.val % 2 = 0 → 0 < ((exModesC a).p).im) ∧ (a.val % 2 = 1 → ((exModesC a).p).im < 0) := by
+  intro a; fin_cases a <;> simp [exModesC]
+example : dot (F := ℂ) (fun i => if i = 0 then 1 else 0) (fun i => if i = 0 then 1 else 0) = 1
+    ∧ dot (F := ℂ) (fun i => if i = 1 then 1 else 0) (fun i => if i = 1 then 1 else 0) = 1
+    ∧ dot (F := ℂ) (fun i => if i = 0 then 1 else 0) (fun i => if i = 1 then 1 else 0) = 0 := by
+  simp [dot, sum3]
+/-- a point off every cut for a mode with `p = i`: `η = 1 + i`. -/
+example : (1 : ℂ) + Complex.I * 1 ∈ Complex.slitPlane := by
+  rw [Complex.mem_slitPlane_iff]; left; simp
+example : (1 : ℝ) ≠ 0 ∧ (3 : ℝ) ≠ 0 ∧ (1 : ℝ) - 1 / 4 ≠ 0 ∧ (1 : ℝ) + 1 / 4 ≠ 0 ∧ (1 : ℝ) * 1 + 2 * 2 ≠ 0 := by norm_num
 
 end Atomman.C12
